@@ -312,7 +312,7 @@ func ruleErrorPropagated(rule string, verify bool) func(*Ctx) {
 					"a failure of "+what+" ends the operation with that error", "a failure of "+what+" is not returned to the caller (skipped/ignored): records that cannot be decrypted or verified are silently passed over, so a rebuild or restore 'succeeds' with the wrong key or on a forged tape")
 			}
 		}
-		if n < 5 {
+		if n < half(5) {
 			c.unresolved("only %d decrypt/verify calls found in pkg/recovery", n)
 		}
 	}
@@ -647,7 +647,7 @@ func ruleC04PositionFromDrive(c *Ctx) {
 			c.verdictIf(len(bad) == 0, rule, f, fmt.Sprintf("block count#%d", n), as.Pos(), "the next position is computed from the reader's own offset after the member was skipped",
 				"the next record position is computed from "+strings.Join(bad, ", ")+" rather than from the reader's offset after skipping the member: header sizes are the logical (uncompressed, substituted) ones, so positions drift under compression/encryption or batched members")
 		})
-		if n < 2 {
+		if n < half(2) {
 			c.unresolved("only %d block-count computations found in %s", n, name)
 		}
 	}
@@ -1142,7 +1142,7 @@ func ruleC14SizeGetterPure(c *Ctx) {
 		}
 		c.verdictIf(len(bad) == 0, rule, f, "Size", f.Decl.Pos(), "Size is a pure query", "Size() calls "+strings.Join(bad, ", ")+" on the underlying file: asking for the size (Stat, Truncate, the flush on Close) moves the cursor, so later cursor-relative reads/writes land elsewhere")
 	}
-	if n < 2 {
+	if n < half(2) {
 		c.unresolved("only %d Size methods found in pkg/cache", n)
 	}
 }
@@ -1235,7 +1235,7 @@ func ruleInitializingProvenance(rule string) func(*Ctx) {
 				}
 			}
 		}
-		if n < 8 {
+		if n < half(8) {
 			c.unresolved("only %d initializing arguments found", n)
 		}
 	}
